@@ -92,6 +92,9 @@ def get_parser_by_name(docformat: str, obj: Optional['Documentable'] = None) -> 
         or it could be that the docformat name do not match any know L{pydoctor.epydoc.markup} submodules.
     """
     mod = import_module(f'pydoctor.epydoc.markup.{docformat}')
+    if not hasattr(mod, 'get_parser'):
+        # The name matches a submodule that is not a docstring parser ('_types', '__init__', ...).
+        raise ImportError(f'pydoctor.epydoc.markup.{docformat} is not a docstring parser')
     # We can safely ignore this mypy warning, since we can be sure the 'get_parser' function exist and is "correct".
     return mod.get_parser(obj) # type:ignore[no-any-return]
 
